@@ -372,6 +372,48 @@ def octopus_pair(repo, rep):
         rep.fail("R-C11-5", w.file, w.node.lineno, w.qualname, "table layout", "row / column layout of the energy table differs between writer and reader")
 
 
+def octopus_record_times(repo, rep):
+    """R-C11-5: every time-derived field written in the per-record lines of to_octopus belongs to THAT record (indexed by the record
+    loop's index, or the loop's own element): a value hoisted out of the loop stamps every record with the first record's date."""
+    w = repo.func("wavespectra.output.octopus.to_octopus")
+    # names derived from the time axis
+    def _is_datefmt(v):
+        for x in ast.walk(v):
+            if isinstance(x, ast.FormattedValue) and x.format_spec is not None and "%" in unparse(x.format_spec):
+                return True
+            if isinstance(x, ast.Call) and isinstance(x.func, ast.Attribute) and x.func.attr == "strftime":
+                return True
+        return False
+    T = {"times"}
+    for a_ in ast.walk(w.node):
+        if isinstance(a_, ast.Assign) and isinstance(a_.targets[0], ast.Name) and _is_datefmt(a_.value):
+            T.add(a_.targets[0].id)
+    loops = [l for l in ast.walk(w.node) if isinstance(l, ast.For) and isinstance(l.iter, ast.Call) and call_name(l.iter) == "enumerate"
+             and l.iter.args and isinstance(l.iter.args[0], ast.Name) and l.iter.args[0].id in T and isinstance(l.target, ast.Tuple)]
+    if not loops:
+        raise AnalysisError("to_octopus: record loop `for i, t in enumerate(times)` not found")
+    lp = loops[0]
+    idx, elem = (e.id for e in lp.target.elts)
+    # per-record locals (assigned inside the loop) are fine; time-derived names assigned OUTSIDE the loop must be indexed by idx
+    inner_assigned = {t_.id for a_ in ast.walk(lp) if isinstance(a_, ast.Assign) for t_ in ast.walk(a_.targets[0]) if isinstance(t_, ast.Name)}
+    bad, nuse = [], 0
+    for n in ast.walk(lp):
+        if isinstance(n, ast.Name) and isinstance(n.ctx, ast.Load) and n.id in T and n.id not in inner_assigned and n.id not in (idx, elem):
+            par = getattr(n, "_parent", None)
+            nuse += 1
+            if isinstance(par, ast.Subscript) and par.value is n and unparse(par.slice) == idx:
+                continue
+            if isinstance(par, ast.Call) and call_name(par) in ("enumerate", "len"):
+                continue
+            bad.append(n)
+    if bad:
+        rep.fail("R-C11-5", w.file, bad[0].lineno, w.qualname, f"'{bad[0].id}' used in the record loop without [{idx}]",
+                 f"'{bad[0].id}' is derived from the time axis outside the record loop and is written into every record unchanged: records after "
+                 "a month / day change carry the first record's date fields and are read back at the wrong time", anchor=f"octopus-record-time:{bad[0].id}")
+    else:
+        rep.ok("R-C11-5", f"{w.file}:{lp.lineno} to_octopus", f"{nuse} uses of time-derived values in the record loop", f"each indexed by the record index '{idx}'")
+
+
 def netcdf_packing(repo, rep):
     fi = repo.func("wavespectra.output.netcdf.to_netcdf")
     t = unparse(fi.node).replace(" ", "")
@@ -406,6 +448,7 @@ def run(repo, rep, tier):
     json_formats(repo, rep)
     ww3_pair(repo, rep)
     octopus_pair(repo, rep)
+    octopus_record_times(repo, rep)
     funwave_pair(repo, rep)
     netcdf_packing(repo, rep)
     chunk_loops(repo, rep)
